@@ -47,6 +47,8 @@ def generate(tier, rng):
                 c["ops"][-1] = dict(call, faults={"at": [rng.randrange(0, 8)]})
             yield c
     for n0, ops in fc.wide_histories(rng, tier):
+        if any(fc.has_nonnode(o) for o in ops):
+            continue
         yield {"fam": "lockstep", "asrt": False, "n0": n0, "ops": ops, "nmcls": rng.choice(["mixin", "node", "anynode", "eqmixin", "falsymixin"]),
                "params": _params(rng, 6)}
     for _ in range(250 if tier == "quick" else 4000):
